@@ -259,6 +259,16 @@ TARGETED = {
     "andor_value": "def f():\n    y = v(1) or v(2)\n    z = v(3) and v(4)\n    return c(5, y, z)\n",
     "shadow_next": "def f():\n    next = c(1)\n    for x in it(2):\n        c(3, x)\n    return c(4, next)\n",
     "shadow_iter": "def f():\n    iter = c(1)\n    for x in it(2):\n        c(3, x)\n    return c(4, iter)\n",
+    "if_literal_0": "def f():\n    if 0:\n        c(1)\n    else:\n        c(2)\n    return c(3)\n",
+    "if_literal_1": "def f():\n    if 1:\n        c(1)\n    else:\n        c(2)\n    return c(3)\n",
+    "if_literal_none": "def f():\n    if None:\n        return c(1)\n    return c(3)\n",
+    "if_literal_str": "def f():\n    if 'x':\n        return c(1)\n    return c(3)\n",
+    "while_literal_1_break": "def f():\n    while 1:\n        c(1)\n        if t(2):\n            break\n        c(3)\n    return c(4)\n",
+    "while_true_return_inside": "def f():\n    while True:\n        c(1)\n        if t(2):\n            return c(3)\n",
+    "while_false_else": "def f():\n    while False:\n        c(1)\n    else:\n        c(2)\n    return c(3)\n",
+    "elif_literal": "def f():\n    if t(1):\n        c(2)\n    elif 0:\n        c(3)\n    else:\n        c(4)\n    return c(5)\n",
+    "literal_in_andor": "def f():\n    if t(1) and 1:\n        return c(2)\n    if 0 or t(3):\n        return c(4)\n    return c(5)\n",
+    "ifexp_value": "def f():\n    y = c(1) if t(2) else c(3)\n    return c(4, y)\n",
     "return_in_loop_else": "def f():\n    for x in it(1):\n        c(2)\n    else:\n        return c(3)\n    return c(4)\n",
     "continue_in_while_else_if": "def f():\n    while t(1):\n        if t(2):\n            continue\n        elif t(3):\n            break\n        c(4)\n    else:\n        c(5)\n    return c(6)\n",
 }
